@@ -51,6 +51,9 @@ def tree_cases(draw, tier):
                          "dt": draw(st.sampled_from([0.05, 0.2])), "normalize": draw(st.booleans())})
         elif k == 10:
             prog.append(draw(T.trunc_instr()))
+        elif draw(st.integers(0, 2)) == 0:
+            prog.append({"op": "from_mps13", "q": draw(st.integers(0, 50)), "rng": draw(st.integers(0, 10 ** 6)), "m": draw(st.sampled_from([1, 2, 4])),
+                         "cplx": draw(st.booleans()), "gauge": draw(st.integers(0, 2)), "side": draw(st.integers(0, 1)), "how": draw(st.integers(0, 2))})
         elif draw(st.booleans()):
             prog.append(draw(T.twin_instr()))
         else:
@@ -177,6 +180,71 @@ class TInterp13(T.TInterp):
         reg.terms = terms
         self.O.append(reg)
         self.ham = reg
+
+    def i_from_mps13(self, ins):
+        """chain -> tree conversion, then in-place changes on one side: the other side must not move (self-contained)"""
+        from renormalizer.model import Model
+        from renormalizer.mps import Mps
+        from renormalizer.tn.tree import from_mps
+
+        c = self.ctx
+        if self.aux or c.n < 2 or self.ham is None or not self.ham.terms:
+            return
+        model = Model(list(c.bl), T.build_ops(self.mspec, self.ham.terms))  # from_mps also converts the model's Hamiltonian
+        secs = c.sectors()
+        q = secs[ins["q"] % len(secs)]
+        np.random.seed(ins["rng"])
+        try:
+            mps = Mps.random(model, self.qarg(q), ins["m"], percent=1.0)
+            d = np.asarray(mps.todense())
+            if not np.all(np.isfinite(d)) or np.linalg.norm(d) == 0:
+                raise FloatingPointError
+            if ins.get("cplx"):
+                mps = mps.to_complex().scale(np.exp(0.4j))
+            g = ins.get("gauge", 0)
+            if g == 1:
+                mps.ensure_right_canonical()
+            elif g == 2:
+                mps.ensure_left_canonical()
+            basis, ttns, ttno = from_mps(mps)
+        except (FloatingPointError, ZeroDivisionError, ValueError, AssertionError, IndexError):
+            self.r.classes.append("from_mps13.rejected")
+            return
+        lctx = T.TreeCtx(self.mspec, c.bl, basis)
+        d_chain = np.asarray(mps.todense()).reshape(-1) * mps.coeff
+        d_tree = np.asarray(T.contract_raw(lctx, ttns)).reshape(-1) * ttns.coeff
+        sc = max(np.linalg.norm(d_chain), 1e-300)
+        self.r.classes.append("from_mps13")
+        self.r.info["derived"] = self.r.info.get("derived", 0) + 1
+        v = 2.5
+        try:
+            if ins["side"] == 0:
+                # change the tree in place
+                if ins["how"] == 0:
+                    ttns.scale(v, inplace=True)
+                elif ins["how"] == 1:
+                    ttns.normalize("mps_and_coeff")
+                else:
+                    ttns.root.tensor *= v
+                after = np.asarray(mps.todense()).reshape(-1) * mps.coeff
+                self.r.check_close("tree.from_mps.chain_disturbed_by_tree", after, d_chain, 1e-11 * sc,
+                                   f"the chain state changed when the tree state derived from it was modified in place (how={ins['how']}, gauge={ins.get('gauge')})")
+            else:
+                if ins["how"] == 0:
+                    mps.scale(v, inplace=True)
+                elif ins["how"] == 1:
+                    mps.normalize("mps_and_coeff")
+                else:
+                    mps[len(mps) - 1].array[...] *= v
+                after = np.asarray(T.contract_raw(lctx, ttns)).reshape(-1) * ttns.coeff
+                self.r.check_close("tree.from_mps.tree_disturbed_by_chain", after, d_tree, 1e-11 * sc,
+                                   f"the tree state changed when the chain state it was derived from was modified in place (how={ins['how']}, gauge={ins.get('gauge')})")
+            self.r.info["mutations"] = self.r.info.get("mutations", 0) + 1
+        except Exception as e:  # noqa
+            sg, in_lib = lib_exception_sig(e)
+            if not in_lib:
+                raise
+            self.r.classes.append("from_mps13.mutation_raised")
 
     def i_tmutate(self, ins):
         """documented in-place operations on ONE register; its model is recomputed from the raw tensors afterwards"""
